@@ -139,7 +139,7 @@ func (r *Runner) oblige(st *State, kind, label string, goal Term, pos token.Pos)
 		// contract-level obligations that fold to true are still recorded (discharged syntactically),
 		// so that they are part of the baseline and a change that makes them non-trivial is noticed
 		switch kind {
-		case "post", "pre", "cs", "before", "inv-init", "inv-step", "stable", "lockinv", "decr", "signal", "lostwakeup":
+		case "post", "pre", "cs", "before", "nogo", "inv-init", "inv-step", "stable", "lockinv", "decr", "signal", "lostwakeup":
 			n := r.curName + "#" + kind
 			if label != "" {
 				n += "[" + label + "]"
@@ -174,7 +174,7 @@ func (r *Runner) reach(st *State, label string) {
 		return
 	}
 	o := &Oblig{Name: r.curName + "#reach[" + label + "]", Kind: "reach", Fn: r.curName, Goal: False,
-		PC: append([]Term{}, st.pc...), Expect: "sat", Trail: strings.Join(st.trail, ",")}
+		PC: append([]Term{}, st.pc...), Expect: "sat", Trail: strings.Join(st.trail, ","), FnObj: r.curFn, Spec: r.curSpec}
 	if r.curSpec != nil {
 		o.Props = r.curSpec.Props
 	}
